@@ -608,6 +608,8 @@ def main():
         if any(b.get("stage") == "C" for b in rp.get("breaks", [])) and res.disagreements and not res.violations:
             d = res.disagreements[0]
             res.violate("correspondence", "model and implementation still disagree: " + d["what"], d["case"], d["model"], d["impl"])
+    import c03_fn  # noqa: E402
+    c03_fn.run(res, rng.fork("fn"), drv, a.tier)
     # shortest failing case first (it becomes the "first failing input" of the verdict and of the replay file)
     res.violations.sort(key=lambda v: len(json.dumps(v["case"], default=repr)))
     res.disagreements.sort(key=lambda v: len(json.dumps(v["case"], default=repr)))
